@@ -79,6 +79,29 @@ type Team struct {
 	Subs []*Team `valid:"exist"`
 }
 
+// embedding: an exported base (its fields are NOT promoted for validation: the embedded field is an ordinary field named
+// after its type) and a package-private base (an unexported field: never looked at)
+type Base struct {
+	Name string `valid:"required,to=1~4"`
+	Ids  []int  `valid:"unique"`
+}
+
+type pbase struct {
+	Ids  []int  `valid:"unique"`
+	Code string `valid:"int"`
+}
+
+type Order struct {
+	Base  `valid:"required"`
+	Name  string `valid:"required"`
+	Extra *Base  `valid:"exist"`
+}
+
+type Priv struct {
+	pbase `valid:"required"`
+	X     string `valid:"required"`
+}
+
 // KS is a named string type (map keys of kind string that are not `string`).
 type KS string
 
@@ -132,7 +155,7 @@ var fmtPools = map[string][]string{
 	"unique":     {"1,2,3", "1,2,2", "a,b,a", "a", "a,,", ",", "a,A"},
 	"json":       {"{'a':1}", "{\"a\":\"\x00\n\r\t\x1a\\\"}", "[" + strings.Repeat("1,", 200) + "1", "[" + strings.Repeat("1,", 200) + "1]", `{"a":1}`, `[1,2]`, `[1,2`, `null`, `"x"`, `{a:1}`, `1`, ``, ` {} `, `{"a":"é"}`},
 	"prefix":     {"abc", "abd", "ab", "xabc", "abcabc", "中文", "中"},
-	"path":       {"/tmp", "/etc/hostname", "/nonexistent/x", "/etc", ".", "", "/dev/null"},
+	"path":       {"/tmp", "/etc/hostname", "/nonexistent/x", "/etc", ".", "", "/dev/null", "/etc/hostname/", "/etc/hostname/.", "/nonexistent/../etc/hostname", "/etc/hostname/../hostname", "/nonexistent/..", "/etc/hostname/../../tmp", "/etc//", "/etc/.", "/etc/../etc/hostname"},
 	"re":         {"123", "abc", "a1", "it's", "a,b", "", "12345"},
 }
 
@@ -340,7 +363,7 @@ var scalarTypes = []reflect.Type{
 var errorType = reflect.TypeOf((*error)(nil)).Elem()
 var stringerType = reflect.TypeOf((*fmt.Stringer)(nil)).Elem()
 
-var namedStructs = []reflect.Type{reflect.TypeOf(Leaf{}), reflect.TypeOf(Mid{}), reflect.TypeOf(Top{}), reflect.TypeOf(Node{}), reflect.TypeOf(Dept{}), reflect.TypeOf(Team{})}
+var namedStructs = []reflect.Type{reflect.TypeOf(Leaf{}), reflect.TypeOf(Mid{}), reflect.TypeOf(Top{}), reflect.TypeOf(Node{}), reflect.TypeOf(Dept{}), reflect.TypeOf(Team{}), reflect.TypeOf(Order{}), reflect.TypeOf(Priv{})}
 
 var fieldNames = []string{"A", "B", "C", "D", "E", "F", "G", "Édit", "Ünit", "Name", "Id"}
 
@@ -367,6 +390,7 @@ func (g *wgen) scalarType() reflect.Type { return pick(g.r, scalarTypes) }
 var mapKeyTypes = []reflect.Type{
 	reflect.TypeOf(""), reflect.TypeOf(""), reflect.TypeOf(int(0)), reflect.TypeOf(int(0)), reflect.TypeOf(KS("")),
 	reflect.TypeOf(uint8(0)), reflect.TypeOf(uint32(0)), reflect.TypeOf(int64(0)), reflect.TypeOf(true), reflect.TypeOf(float64(0)),
+	reflect.TypeOf((*interface{})(nil)).Elem(), // keys of different dynamic types may render alike: 1 and "1", int8(7) and int64(7)
 }
 
 // elemOf: T, *T, **T or ***T
@@ -432,6 +456,8 @@ func (g *wgen) nestedType(depth int) reflect.Type {
 // fillKey sets a map key of any of mapKeyTypes' kinds
 func fillKey(r *rand.Rand, k reflect.Value) {
 	switch k.Kind() {
+	case reflect.Interface:
+		k.Set(reflect.ValueOf(pick(r, []interface{}{1, "1", int8(1), int64(1), "a", 2, "2", uint8(2), true, "true", 1.0})))
 	case reflect.String:
 		k.SetString(pick(r, []string{"a", "b", "k", "中", ""}))
 	case reflect.Int, reflect.Int8, reflect.Int16, reflect.Int32, reflect.Int64:
